@@ -378,6 +378,10 @@ func cliEmit(r *Run, g *gen.G, docs []any, fflag, oext, iext, kf string) []byte 
 	if oext != "" {
 		opath = "out." + oext
 		argv = append(argv, "-o", opath)
+		if g.P(0.5) {
+			// the output file exists already and is LONGER than what will be written
+			os.WriteFile(filepath.Join(dir, opath), []byte(strings.Repeat("stale: content of an earlier run\n", 200)), 0o644)
+		}
 	}
 	input := "in." + iext
 	argv = append(argv, input)
